@@ -289,9 +289,16 @@ Fixpoint load_sig (ev : env) (ps : PSignal) : result sig :=
 
 (* ---- messages *)
 (* Message.InsertSignal: the name of the inserted signal against every name registered in the
-   message (top-level and multiplexed), then the layout *)
+   message (top-level and multiplexed); then verifyNestedSignalNames: the signals it holds at any
+   depth against the message and among themselves (equal names are tolerated only for one and
+   the same signal, i.e. equal entity id); then the layout *)
+Definition names_clash (t others : list sig) : bool :=
+  existsb (fun a => existsb (fun b => String.eqb (sig_name a) (sig_name b) && negb (String.eqb (sig_id a) (sig_id b)))
+                            (t ++ others)) t.
+
 Definition msg_insert_signal (ev : env) (bits : Z) (cur : list sig) (s : sig) (pos : Z) : result (list sig) :=
   if memb (sig_name s) (map sig_name (flat_map sig_flat cur)) then Err Duplicated
+  else if names_clash (sig_flat s) (flat_map sig_flat cur) then Err Duplicated
   else do _ <- layout_verify ev bits cur s pos; Ok (layout_insert cur s pos).
 
 Definition load_msg_signal (ev : env) (bits : Z) (sigmap : list (string * Z)) (cur : list sig) (ps : PSignal)
